@@ -65,6 +65,9 @@ pub enum IndexSpec {
     /// what another version of the tool might have left: same field names, but the name field
     /// indexed with another tokenizer and not stored, other documents
     ForeignSchema,
+    /// same schema, exactly as many documents as the shipped data with the same words, but most
+    /// payloads are those of other data (what a same-named data refresh would have indexed)
+    ForeignSameShape,
 }
 
 #[derive(Serialize, Deserialize, Clone, Debug, PartialEq, Eq)]
@@ -99,6 +102,7 @@ pub struct Reference {
     pub gold_index: PathBuf,
     pub foreign_index: PathBuf,
     pub foreign_schema_index: PathBuf,
+    pub foreign_same_shape_index: PathBuf,
 }
 
 #[derive(Deserialize)]
@@ -384,6 +388,7 @@ pub fn fabricate(p: &Paths, spec: &StateSpec, r: &Reference) -> std::io::Result<
         IndexSpec::Complete => copy_dir(&r.gold_index, &p.index())?,
         IndexSpec::Foreign => copy_dir(&r.foreign_index, &p.index())?,
         IndexSpec::ForeignSchema => copy_dir(&r.foreign_schema_index, &p.index())?,
+        IndexSpec::ForeignSameShape => copy_dir(&r.foreign_same_shape_index, &p.index())?,
     }
     Ok(())
 }
@@ -494,5 +499,61 @@ pub fn build_foreign(dir: &Path, shipped: &Shipped, other_version_schema: bool) 
     w.commit().map_err(|e| e.to_string())?;
     drop(w);
     // the writer lock files are left by tantivy as empty files; keep whatever it leaves
+    Ok(())
+}
+
+/// Build the "same shape" foreign index: one document per shipped constant, in shipping order and
+/// with the shipped words, so that every coarse measure (schema, number of documents, terms)
+/// equals that of a complete index — but four of five payloads carry another description (the
+/// data of "another edition"), and the first three documents are the fake facts.
+pub fn build_foreign_same_shape(dir: &Path, shipped: &Shipped) -> Result<(), String> {
+    let (schema, fd, fname) = tool_schema(false);
+    fs::create_dir_all(dir).map_err(|e| e.to_string())?;
+    let index = Index::create_in_dir(dir, schema).map_err(|e| e.to_string())?;
+    index
+        .tokenizers()
+        .register("ngram", TextAnalyzer::from(NgramTokenizer::new(1, 7, true)).filter(LowerCaser));
+    let mut w = index.writer_with_num_threads(1, 50_000_000).map_err(|e| e.to_string())?;
+    let fakes: [(Vec<&str>, u32); 3] = [(vec!["zzzfake", "quux"], 42), (vec!["population", "world"], 7), (vec!["verifonly"], 9)];
+    let total = shipped.docs();
+    for i in 0..total {
+        let mut d = Document::default();
+        if i < fakes.len() {
+            let (toks, v) = &fakes[i];
+            let c = FakeConstant {
+                source: None,
+                tokens: toks.iter().map(|s| s.to_string()).collect(),
+                description: format!("FAKE {}", toks.join(" ")),
+                value: anything::Rational::new(*v, 1u32),
+                unit: anything::Compound::empty(),
+            };
+            d.add_bytes(fd, serde_cbor::to_vec(&c).map_err(|e| e.to_string())?);
+            for t in &c.tokens {
+                d.add_text(fname, t);
+            }
+        } else if let Some(c) = shipped.constants.get(i) {
+            if i % 5 == 0 {
+                d.add_bytes(fd, canon(c));
+            } else {
+                let mut c = c.clone();
+                c.description = format!("OTHER EDITION {}", c.description).into();
+                d.add_bytes(fd, canon(&c));
+            }
+            for t in &c.tokens {
+                d.add_text(fname, t.as_ref());
+            }
+        } else {
+            // a constant the library under test refuses to decode: keep its words, fake payload
+            let r = &shipped.refused[i - shipped.constants.len()];
+            let c = FakeConstant { source: None, tokens: r.tokens.clone(), description: "OTHER EDITION".into(), value: anything::Rational::new(1u32, 1u32), unit: anything::Compound::empty() };
+            d.add_bytes(fd, serde_cbor::to_vec(&c).map_err(|e| e.to_string())?);
+            for t in &c.tokens {
+                d.add_text(fname, t);
+            }
+        }
+        w.add_document(d).map_err(|e| e.to_string())?;
+    }
+    w.commit().map_err(|e| e.to_string())?;
+    drop(w);
     Ok(())
 }
